@@ -262,12 +262,14 @@ struct Printer {
             if (u.kind == 0) {
                 const cm::Loop &l = c.loops[u.a];
                 room(cplen(l.names[u.b])); raw(l.names[u.b]);
+                info.order.push_back("I " + vh::uesc(l.names[u.b]));
                 ws(true);
                 if (l.rows.empty() || u.b >= l.rows[0].size()) { info.ok = false; info.why = "scalar without value"; return; }
                 value(l.rows[0][u.b], 0);
             } else if (u.kind == 1) {
                 const cm::Loop &l = c.loops[u.a];
                 room(5); raw(keyword("loop_")); info.labels.insert("loop");
+                info.order.push_back("L " + std::to_string(u.a));
                 for (auto &n : l.names) { ws(true); room(cplen(n)); raw(n); }
                 if (l.rows.empty()) { info.ok = false; info.why = "loop without packets"; return; }
                 for (auto &r : l.rows) for (size_t j = 0; j < l.names.size(); j++) {
@@ -279,10 +281,12 @@ struct Printer {
             } else {
                 const Container &f = c.frames[u.a];
                 room(5 + cplen(f.code)); raw(keyword("save_") + f.code); info.labels.insert(depth ? "nested-frames" : "frames");
+                info.order.push_back("F " + vh::uesc(f.code));
                 container_body(f, depth + 1);
                 if (!info.ok) return;
                 ws(true);
                 room(5); raw(keyword("save_"));
+                info.order.push_back("E");
             }
         }
     }
@@ -368,6 +372,7 @@ std::string print(const Doc &d, Tape &tape, const PrintOpts &o, PrintInfo &info)
         p.ws(!first);
         first = false;
         p.room(5 + cplen(b.code)); p.raw(p.keyword("data_") + b.code);
+        info.order.push_back("B " + vh::uesc(b.code));
         p.container_body(b, 0);
         if (!info.ok) return std::string();
     }
